@@ -42,8 +42,7 @@ FUNCTIONAL_FLAGS = ["--no-standard-checks", "--unwinding-assertions",
                     "--no-built-in-assertions"]
 MEMSAFE_FLAGS = ["--unwinding-assertions", "--drop-unused-functions",
                  "--no-malloc-may-fail", "--pointer-overflow-check",
-                 "--signed-overflow-check", "--undefined-shift-check",
-                 "--no-built-in-assertions"]
+                 "--signed-overflow-check", "--undefined-shift-check"]
 
 print_lock = threading.Lock()
 
@@ -96,8 +95,34 @@ class Query:
         return self.h.get(key, default)
 
 
-def include_flags(prop, h):
+def make_cuts(h, d):
+    """cut_statics: {repo-relative .c: [static function names]} -> a copy of the real file
+    (regenerated from /repo on every run) in which ONLY the definition of each named function is
+    renamed vf_cut_<name>; calls keep the name, so the harness's stub_ definition is what runs.
+    The harness must declare the prototype before the #include and define the stub after it."""
+    cuts = h.get("cut_statics")
+    if not cuts:
+        return None
+    root = os.path.join(d, "cutroot")
+    for rel, names in cuts.items():
+        txt = open(os.path.join(REPO, rel), errors="replace").read()
+        for n in names:
+            pat = re.compile(r"(^(?:static|errcode_t|int|void|blk64_t|unsigned)[^;{}()]*?\b)" + re.escape(n)
+                             + r"(\s*\([^;{}]*\)\s*\{)", re.M)
+            txt, k = pat.subn(lambda m: m.group(1) + "vf_cut_" + n + m.group(2), txt, count=1)
+            if k != 1:
+                raise RuntimeError("cut_statics: definition of %s not found in %s" % (n, rel))
+        out = os.path.join(root, rel)
+        os.makedirs(os.path.dirname(out), exist_ok=True)
+        # keep quoted includes of sibling headers working: they are found through -I$REPO/<dir>
+        open(out, "w").write(txt)
+    return root
+
+
+def include_flags(prop, h, cutroot=None):
     fl = ["-I" + COMMON, "-I" + os.path.join(VERIF, "harness", prop)]
+    if cutroot:
+        fl.append("-I" + cutroot)
     for d in INC:
         fl.append("-I" + os.path.join(REPO, d))
     if os.path.isdir(GEN):
@@ -125,9 +150,14 @@ def build(q, work):
     srcs = [src] + [os.path.join(REPO, s) for s in h.get("extra_src", [])] \
         + [os.path.join(VERIF, "harness", s) for s in h.get("extra_harness_src", [])]
     out = os.path.join(d, "h.gb")
+    try:
+        cutroot = make_cuts(h, d)
+    except (RuntimeError, OSError) as e:
+        q.build_err = str(e)
+        return
     cmd = ["goto-cc", "-o", out] + srcs + ["-include", os.path.join(COMMON, "vf.h"),
                                           "-DHAVE_CONFIG_H", "-DE2FSPROGS_VERIF", "-DVF_CBMC"]
-    cmd += include_flags(q.prop, h) + ["-D" + x for x in q.defines()]
+    cmd += include_flags(q.prop, h, cutroot) + ["-D" + x for x in q.defines()]
     rc, o = run_cmd(cmd, cwd=d)
     if rc != 0 or not os.path.exists(out):
         q.build_err = "goto-cc failed:\n" + o[-3000:]
@@ -219,7 +249,9 @@ def parse_output(o):
         m = RE_PROP.match(line)
         if m:
             r["nprops"] += 1
-            if m.group(4) != "SUCCESS":
+            if m.group(4) == "UNKNOWN":
+                r["unknown"] = r.get("unknown", 0) + 1
+            elif m.group(4) != "SUCCESS":
                 lab = m.group(3)
                 if lab.startswith("unwinding assertion") or lab.startswith("recursion unwinding"):
                     lab = "unwinding assertion " + m.group(1)
@@ -315,28 +347,38 @@ def solve_attempt(q, backend, cap, memgb):
 
 
 class Pool:
+    """n worker threads taking jobs strictly in submission order"""
     def __init__(self, n):
-        self.sem = threading.Semaphore(n)
-        self.threads = []
+        self.n = n
+        self.jobs = []
 
     def submit(self, fn, *a):
+        self.jobs.append((fn, a))
+
+    def run(self):
+        lock = threading.Lock()
+        jobs = self.jobs
+        self.jobs = []
+        pos = [0]
+
         def w():
-            with self.sem:
+            while True:
+                with lock:
+                    if pos[0] >= len(jobs):
+                        return
+                    fn, a = jobs[pos[0]]
+                    pos[0] += 1
                 try:
                     fn(*a)
                 except Exception as e:
                     log("internal error in worker: %r" % (e,))
                     import traceback
                     traceback.print_exc()
-        t = threading.Thread(target=w, daemon=True)
-        self.threads.append(t)
-
-    def run(self):
-        for t in self.threads:
+        ts = [threading.Thread(target=w, daemon=True) for _ in range(min(self.n, max(1, len(jobs))))]
+        for t in ts:
             t.start()
-        for t in self.threads:
+        for t in ts:
             t.join()
-        self.threads = []
 
 
 # ---------------------------------------------------------------- trace -> input values
@@ -407,9 +449,16 @@ def extract_input(trace_json):
     return [], None
 
 
-def get_counterexample(q, backend, cap, memgb):
+def is_ub_label(l):
+    return l.startswith("pointer arithmetic:") or l.startswith("pointer relation:")
+
+
+def get_counterexample(q, backend, cap, memgb, prop_id=None):
     """re-run the failing query with --trace --json-ui, first failing property only"""
-    cmd = cbmc_cmd(q, backend, ["--trace", "--json-ui", "--stop-on-fail"])
+    extra = ["--trace", "--json-ui", "--stop-on-fail"]
+    if prop_id:
+        extra += ["--property", prop_id]
+    cmd = cbmc_cmd(q, backend, extra)
     outp = os.path.join(q.dir, "trace.json")
     with open(outp, "w") as fo:
         p = subprocess.Popen(cmd, stdout=fo, stderr=subprocess.DEVNULL, cwd=q.dir,
@@ -457,10 +506,15 @@ def native_replay(prop, h, cfg, vals, work, timeout=120):
     if not h.get("replay_no_inline") and inl not in srcs and "lib/ext2fs/inline.c" not in h.get("extra_src", []):
         srcs.append(inl)
     exe = os.path.join(d, "replay")
+    try:
+        cutroot = make_cuts(h, d)
+    except (RuntimeError, OSError) as e:
+        return {"built": False, "log": str(e), "dir": d}
     cmd = ["gcc", "-g", "-O0", "-fsanitize=address,undefined", "-fno-sanitize-recover=undefined",
            "-w", "-o", exe] + srcs + \
           ["-include", os.path.join(COMMON, "vf.h"), "-DHAVE_CONFIG_H", "-DE2FSPROGS_VERIF",
-           "-DVF_REPLAY", "-D_GNU_SOURCE", "-I" + d] + include_flags(prop, h) + ["-D" + x for x in q.defines()]
+           "-DVF_REPLAY", "-D_GNU_SOURCE", "-I" + d] + include_flags(prop, h, cutroot) \
+        + ["-D" + x for x in q.defines()]
     for f in h.get("remove_bodies", []):
         # natively the cut callee is replaced by the stub through a rename of the real one
         cmd.append("-D%s=vf_cut_%s" % (f, f))
@@ -631,7 +685,7 @@ def main():
         fl = list_functions(q.gb, q.dir)
         real = [f for f in fl if not f.startswith(HARNESS_PREFIXES) and f not in q.h.get("stubs", [])]
         funcs_by_h[hn] = real
-        for f in q.h.get("funcs", []):
+        for f in ([] if a.only else q.h.get("funcs", [])):
             if f not in fl:
                 missing_funcs.append((hn, f))
     for hn, f in missing_funcs:
@@ -672,6 +726,7 @@ def main():
 
     # ---- verdicts
     violations, knowns, mismatches, broken, inconclusive = [], [], [], [], []
+    ub_reports = []
     replays = 0
     qrecords = []
     for q in queries:
@@ -701,8 +756,24 @@ def main():
         rec["failed"] = labels
         log("FAIL %s: %s" % (q.name, "; ".join(labels)))
         # known-finding filter: all failed labels known?
+        # pick the property whose trace we want: a genuine (non pointer-formation) one if any
+        want = None
+        if r["backend"] not in ("kissat",):
+            cand = [f for f in r["failed"] if not is_ub_label(f["label"]) and "unwind" not in f["id"]]
+            if cand and len(r["failed"]) > 1:
+                want = cand[0]["id"]
+        vals, pr = get_counterexample(q, r["backend"], 300, memgb, want)
+        if r["backend"] == "kissat" and pr is not None:
+            # an external (non-incremental) SAT solver makes cbmc mark EVERY property of the group
+            # FAILURE; the only trustworthy label is the one the counterexample trace violates
+            pid = pr.get("property", "")
+            one = [f for f in r["failed"] if f["id"] == pid]
+            if one:
+                r["failed"] = one
+                labels = [one[0]["label"]]
+                rec["failed"] = labels
+                log("   (kissat verdict; failing property identified by the trace: %s)" % labels[0])
         unknown = [f for f in r["failed"] if not match_known(known, q, f["label"])]
-        vals, pr = get_counterexample(q, r["backend"], 300, memgb)
         rep = None
         cls = "no-trace"
         if vals is not None:
@@ -719,7 +790,14 @@ def main():
                    "replay_log": rep["log"][-2000:] if rep else None}, open(rpath, "w"), indent=1)
         rec["replay_path"] = rpath
         only_unwind = all("unwinding assertion" in l for l in labels)
-        if not unknown:
+        # standard-level UB that no sanitizer can confirm (forming/comparing an out-of-object
+        # pointer): reported separately, never as a violation, never as a harness error
+        ub_only = q.get("checks") == "memsafe" and not cls.startswith("reproduced") and all(
+            is_ub_label(l) for l in labels)
+        if ub_only:
+            ub_reports.append((q, labels, rpath))
+            rec["ub_report"] = labels
+        elif not unknown:
             for f in r["failed"]:
                 k = match_known(known, q, f["label"])
                 knowns.append((q, f["label"], k, cls))
@@ -759,6 +837,9 @@ def main():
             log(rep["log"][-1500:])
     for q, why, rpath in broken:
         log("BROKEN-HARNESS %s: %s" % (q.name, why))
+    for q, labels, rpath in ub_reports:
+        log("UB-REPORT %s: %s (not confirmable by a sanitizer; triage by reading) replay=%s" % (
+            q.name, "; ".join(labels), rpath))
     for q, labels, rpath, cls in violations:
         log("VIOLATION property=%s replay=%s" % (prop, rpath))
         log("   harness=%s failed=[%s] native=%s" % (q.name, "; ".join(labels), cls))
